@@ -1127,7 +1127,7 @@ func genEnding(t *rapid.T, c Case) Ending {
 
 // TestPipe: no limit or a limit far above the traffic — many cases, large payloads.
 func TestPipe(t *testing.T) {
-	property(t, 4000, 20000, func(t *rapid.T) {
+	property(t, 4000, 10000, func(t *rapid.T) {
 		check(t, genCase(t, []int64{0, 0, 0, 10 * 1024 * 1024}))
 	})
 }
@@ -1135,7 +1135,7 @@ func TestPipe(t *testing.T) {
 // TestPipeLimited: limits that actually pace (64 KiB/s) and limits whose burst is below the
 // 32 KiB copy buffer (12 KiB/s, 4 KiB/s). Cases take real time; sizes are budgeted accordingly.
 func TestPipeLimited(t *testing.T) {
-	property(t, 560, 3000, func(t *rapid.T) {
+	property(t, 560, 1400, func(t *rapid.T) {
 		check(t, genCase(t, []int64{64 * 1024, 12 * 1024, 4096, 4096}))
 	})
 }
@@ -1176,7 +1176,7 @@ func TestLimiterBurstFamily(t *testing.T) {
 // runBridgeLifecycle). "The server forgets the tunnel" = GetTunnelBridgeByMappingID finds nothing
 // and the routing table has no waiting record for the tunnel id.
 func TestSession(t *testing.T) {
-	property(t, 640, 4000, func(t *rapid.T) {
+	property(t, 640, 2000, func(t *rapid.T) {
 		c := genCase(t, []int64{0, 0, 0, 10 * 1024 * 1024, 64 * 1024, 4096})
 		c.Mini = true
 		c.Stream = true
@@ -1191,7 +1191,7 @@ func TestSession(t *testing.T) {
 // TestSessionLongLived: tunnels on the mini-server that stay open for several HeartbeatTimeouts with
 // both ends trickling data and nobody closing: everything must arrive, the tunnel must still be there.
 func TestSessionLongLived(t *testing.T) {
-	property(t, 32, 240, func(t *rapid.T) {
+	property(t, 32, 96, func(t *rapid.T) {
 		c := Case{Mini: true, Stream: true, HeartbeatMs: 150, SpreadMs: rapid.SampledFrom([]int{800, 1000}).Draw(t, "spread")}
 		c.LenAB = rapid.IntRange(200, 60000).Draw(t, "lenAB")
 		c.LenBA = rapid.IntRange(200, 60000).Draw(t, "lenBA")
@@ -1210,7 +1210,7 @@ func TestSessionLongLived(t *testing.T) {
 // server's copy loop is parked in a Write; then the other direction ends (peer closes and the
 // stalled end sends on / the stalled end half-closes). The server must still let go of everything.
 func TestBackPressure(t *testing.T) {
-	property(t, 320, 3200, func(t *rapid.T) {
+	property(t, 320, 1400, func(t *rapid.T) {
 		c := Case{Stream: rapid.IntRange(0, 3).Draw(t, "stream") != 0, Mini: rapid.IntRange(0, 2).Draw(t, "mini") == 0}
 		if c.Mini {
 			c.Stream = true
@@ -1241,7 +1241,7 @@ func TestBackPressure(t *testing.T) {
 // TestCloseRace (E3): Bridge.Close() from 1..3 goroutines released by a spin flag while both copy
 // loops are moving small payloads; the prefix / closure / counter oracle of runCase applies.
 func TestCloseRace(t *testing.T) {
-	property(t, 1200, 8000, func(t *rapid.T) {
+	property(t, 1200, 4000, func(t *rapid.T) {
 		c := Case{
 			LenAB: rapid.IntRange(0, 70000).Draw(t, "lenAB"), LenBA: rapid.IntRange(0, 70000).Draw(t, "lenBA"),
 			SeedAB: uint64(rapid.IntRange(0, 65535).Draw(t, "seedAB")), SeedBA: uint64(rapid.IntRange(0, 65535).Draw(t, "seedBA")),
